@@ -51,12 +51,12 @@ _TREE_BUILDER_CALLS = [
     'EXTERNAL',
 ]
 
-# (function qual, normalised callee text) -> targets
+# (function qual, name-independent shape of the callee, see resolve.dispatch_shapes) -> targets
 DISPATCH: Dict[Tuple[str, str], List[str]] = {
-    ('lark.parsers.lalr_parser_state:ParserState.feed_token', 'callbacks[rule]'): _TREE_BUILDER_CALLS,
-    ('lark.parsers.lalr_parser_state:ParserState.feed_token', 'callbacks[token.type]'): ['EXTERNAL'],
-    ('lark.parsers.earley_forest:ForestToParseTree._call_rule_func', 'self.callbacks[node.rule]'): _TREE_BUILDER_CALLS,
-    ('lark.parser_frontends:CYK_FrontEnd._apply_callback', 'self.callbacks[tree.rule]'): _TREE_BUILDER_CALLS,
+    ('lark.parsers.lalr_parser_state:ParserState.feed_token', '[*]'): _TREE_BUILDER_CALLS,
+    ('lark.parsers.lalr_parser_state:ParserState.feed_token', '[<x>.type]'): ['EXTERNAL'],
+    ('lark.parsers.earley_forest:ForestToParseTree._call_rule_func', 'self.callbacks[*]'): _TREE_BUILDER_CALLS,
+    ('lark.parser_frontends:CYK_FrontEnd._apply_callback', 'self.callbacks[*]'): _TREE_BUILDER_CALLS,
     ('lark.parse_tree_builder:ExpandSingleChild.__call__', 'self.node_builder'): _TREE_BUILDER_CALLS,
     ('lark.parse_tree_builder:PropagatePositions.__call__', 'self.node_builder'): _TREE_BUILDER_CALLS,
     ('lark.parse_tree_builder:ChildFilter.__call__', 'self.node_builder'): _TREE_BUILDER_CALLS,
@@ -64,12 +64,12 @@ DISPATCH: Dict[Tuple[str, str], List[str]] = {
     ('lark.parse_tree_builder:ChildFilterLALR_NoPlaceholders.__call__', 'self.node_builder'): _TREE_BUILDER_CALLS,
     ('lark.parse_tree_builder:AmbiguousExpander.__call__', 'self.node_builder'): _TREE_BUILDER_CALLS,
     ('lark.parse_tree_builder:AmbiguousIntermediateExpander.__call__', 'self.node_builder'): _TREE_BUILDER_CALLS,
-    ('lark.lexer:BasicLexer.next_token', 'self.callback[t.type]'): [
+    ('lark.lexer:BasicLexer.next_token', 'self.callback[<x>.type]'): [
         'lark.lexer:UnlessCallback.__call__', 'lark.lexer:CallChain.__call__', 'EXTERNAL'],
     ('lark.lexer:CallChain.__call__', 'self.callback1'): ['lark.lexer:UnlessCallback.__call__', 'lark.lexer:CallChain.__call__', 'EXTERNAL'],
     ('lark.lexer:CallChain.__call__', 'self.callback2'): ['EXTERNAL'],
     # the embedded transformer's __default__ is user code
-    ('lark.parse_tree_builder:ParseTreeBuilder.create_callback.default_callback', 'default_handler'): ['EXTERNAL'],
+    ('lark.parse_tree_builder:ParseTreeBuilder.create_callback.default_callback', 'closure'): ['EXTERNAL'],
 }
 
 ENTRY_POINTS = ['lark.lark:Lark.parse', 'lark.lark:Lark.lex', 'lark.lark:Lark.scan', 'lark.lark:Lark.parse_interactive']
